@@ -1148,7 +1148,9 @@ def c02_driver(ctx):
             p2 = subprocess.run([wvh, "fsop", "readall", af, ef, str(pre)], stdout=subprocess.PIPE, text=True)
             res["evals"] += nf
             bump("c02.lib_reads_reference.behind_prefix")
-            lines += [l + " [archive behind a %d-byte prefix]" % pre for l in p2.stdout.split("\n") if l.startswith("FAIL") and l not in lines]
+            # a file that is also unreadable at offset 0 is not a prefix matter (its error text may differ: it quotes file sizes)
+            failed0 = {l.split(":")[0] for l in lines if l.startswith("FAIL")}
+            lines += [l + " [archive behind a %d-byte prefix]" % pre for l in p2.stdout.split("\n") if l.startswith("FAIL") and l.split(":")[0] not in failed0]
         for l in lines:
             if l.startswith("FAIL"):
                 nm = l.split(":")[0].replace("FAIL ", "")
